@@ -4,6 +4,7 @@ mod exec;
 mod explore;
 mod nursery;
 mod oracles;
+mod pipelines;
 mod world;
 mod worlds;
 
@@ -24,6 +25,8 @@ struct Args {
     cap_s: u64,
     only_world: Option<String>,
     verbose: bool,
+    from: usize,
+    to: usize,
 }
 
 fn parse_args() -> Args {
@@ -38,6 +41,8 @@ fn parse_args() -> Args {
         cap_s: 0,
         only_world: None,
         verbose: false,
+        from: 0,
+        to: 0,
     };
     if let Ok(t) = std::env::var("VERIF_TIER") {
         if t == "thorough" {
@@ -68,6 +73,14 @@ fn parse_args() -> Args {
                 args.only_world = Some(a[i].clone());
             },
             "-v" => args.verbose = true,
+            "--from" => {
+                i += 1;
+                args.from = a[i].parse().unwrap();
+            },
+            "--to" => {
+                i += 1;
+                args.to = a[i].parse().unwrap();
+            },
             other => {
                 eprintln!("unknown argument {other}");
                 std::process::exit(2);
@@ -166,39 +179,52 @@ fn write_replay(
     path
 }
 
+fn worker_args(args: &Args) -> Vec<String> {
+    vec!["worker".into(), args.id.clone(), "--tier".into(), tier_name(args.tier).into()]
+}
+
+fn run_worker(args: &Args) -> i32 {
+    let Some(ts) = targets_for(&args.id, args.tier) else { return 2 };
+    let targets: Vec<Box<dyn Target>> = ts.into_iter().map(|t| Box::new(t) as Box<dyn Target>).collect();
+    worker_loop(&targets, 1_500_000);
+    0
+}
+
 fn run_check(args: &Args) -> i32 {
     let t0 = Instant::now();
     let id = args.id.as_str();
-    let Some(def) = check_def(id, args.tier) else {
+    if id == "C06" {
+        return run_c06(args);
+    }
+    let Some(targets) = targets_for(id, args.tier) else {
         eprintln!("unknown property {id}");
         return 2;
     };
     let known = load_known(&args.verif_dir);
     let deadline = Instant::now() + Duration::from_secs(args.cap_s);
+    let mut pool = Pool::new(args.threads, worker_args(args), u64::MAX);
     let mut total = Stats::default();
     let mut per_world: Vec<Value> = vec![];
     let mut new_viol: Vec<(PathBuf, String)> = vec![];
     let mut known_hits: BTreeMap<String, (String, u64)> = BTreeMap::new();
     let mut machinery: Option<String> = None;
     let mut samples: Vec<Value> = vec![];
-    let mut bounds_desc: Vec<String> = vec![];
-    for spec in def.worlds {
+    for (widx, target) in targets.iter().enumerate() {
         if let Some(w) = &args.only_world {
-            if !spec.name.contains(w.as_str()) {
+            if !target.spec.name.contains(w.as_str()) {
                 continue;
             }
         }
-        let target = WorldTarget { spec, oracle: def.oracle, digest: false };
         let left = deadline.saturating_duration_since(Instant::now());
         if left.is_zero() {
             total.capped = true;
             machinery = Some(format!("wall-clock cap hit before world {}", target.spec.name));
             break;
         }
-        let st = explore(&target, args.threads, left, samples.len() < 3);
+        let st = explore(target, widx, &mut pool, left, samples.len() < 3);
         if args.verbose {
             eprintln!(
-                "{:<40} execs={:>10} states={:>11} outcomes={:>7} viol_execs={:>8} sigs={} {:.1}s",
+                "{:<44} execs={:>10} states={:>11} outcomes={:>7} viol_execs={:>8} sigs={} {:.1}s",
                 target.spec.name,
                 st.execs,
                 st.states,
@@ -216,10 +242,10 @@ fn run_check(args: &Args) -> i32 {
             "distinct_nontrivial": st.nontrivial.len(),
             "E": target.spec.cfg.e, "D": target.spec.cfg.d,
             "max_choice_points": st.max_choices,
+            "max_deviations_used": st.max_devs,
             "violating_executions": st.violating_execs,
             "wall_s": (st.wall_s * 100.0).round() / 100.0,
         }));
-        bounds_desc.push(format!("{}", target.spec.name));
         if let Some(m) = &st.machinery_fault {
             machinery = Some(m.clone());
         }
@@ -241,8 +267,8 @@ fn run_check(args: &Args) -> i32 {
                 continue;
             }
             // validate: replay twice, identical traces, oracle fails again
-            let r1 = replay(&target, &f.script, &f.script_n);
-            let r2 = replay(&target, &f.script, &f.script_n);
+            let r1 = replay(target, &f.script, &f.script_n);
+            let r2 = replay(target, &f.script, &f.script_n);
             if r1.trace != r2.trace || r1.fault != r2.fault {
                 machinery = Some(format!("replay of a violation in {} is not deterministic", target.spec.name));
                 continue;
@@ -261,15 +287,14 @@ fn run_check(args: &Args) -> i32 {
                 ));
                 continue;
             }
-            let path = write_replay(args, id, &target, f, &r1);
+            let path = write_replay(args, id, target, f, &r1);
             new_viol.push((path, format!("{} [{}] {}", target.spec.name, f.viol.sig, f.viol.detail)));
         }
-        let keep_found = std::mem::take(&mut total.found);
         let mut st2 = st;
         st2.found.clear();
         total.merge(st2);
-        total.found = keep_found;
     }
+    pool.shutdown();
     let wall = t0.elapsed().as_secs_f64();
     // evidence
     let exhaustive = machinery.is_none() && !total.capped;
@@ -340,6 +365,9 @@ fn run_replay(args: &Args) -> i32 {
     let s = std::fs::read_to_string(&path).expect("read replay file");
     let v: Value = serde_json::from_str(&s).expect("parse replay file");
     let id = v["property"].as_str().unwrap().to_string();
+    if id == "C06" {
+        return replay_c06(args, &v);
+    }
     let wname = v["world"].as_str().unwrap().to_string();
     let script: Vec<u16> = v["script"].as_array().unwrap().iter().map(|x| x.as_u64().unwrap() as u16).collect();
     let script_n: Vec<u16> = v["script_n"].as_array().unwrap().iter().map(|x| x.as_u64().unwrap() as u16).collect();
@@ -399,10 +427,363 @@ fn main() {
             }
         },
         "replay" => run_replay(&args),
+        "worker" => run_worker(&args),
+        "c06worker" => run_c06_worker(&args, args.from, args.to),
         _ => {
             eprintln!("usage: cbmc check <ID> [--tier quick|thorough] [--replay FILE] [--world SUBSTR] [-v]");
             2
         },
     };
     std::process::exit(code);
+}
+
+// ------------------------------------------------------------------------------------------------
+// C06: pipelines
+
+fn stage_family(s: &pipelines::Stage) -> &'static str {
+    use pipelines::{Simple, Stage};
+    match s {
+        Stage::S(Simple::MapAdd) | Stage::S(Simple::MapMul) => "map",
+        Stage::S(Simple::FilterEven) | Stage::S(Simple::FilterOdd) | Stage::S(Simple::FilterGt1) | Stage::S(Simple::FilterNone) => "filter",
+        Stage::S(Simple::Scan) => "scan",
+        Stage::S(Simple::Take(_)) => "take",
+        Stage::S(Simple::Skip(_)) => "skip",
+        Stage::ConcatAfter(..) | Stage::ConcatBefore(..) => "concat",
+        Stage::FlatMap(..) => "flatten",
+    }
+}
+
+fn c06_depth(tier: Tier) -> usize {
+    if tier == Tier::Quick {
+        3
+    } else {
+        4
+    }
+}
+
+#[derive(Default)]
+struct C06Acc {
+    programs: u64,
+    runs: u64,
+    skipped: u64,
+    outputs: std::collections::HashSet<u64>,
+    nontrivial: std::collections::HashSet<u64>,
+    /// sig -> (program, input index, clause, detail, count)
+    found: BTreeMap<String, (Vec<usize>, usize, String, String, u64)>,
+    samples: Vec<String>,
+}
+
+impl C06Acc {
+    fn merge(&mut self, o: C06Acc) {
+        self.programs += o.programs;
+        self.runs += o.runs;
+        self.skipped += o.skipped;
+        self.outputs.extend(o.outputs);
+        self.nontrivial.extend(o.nontrivial);
+        for (k, v) in o.found {
+            match self.found.get_mut(&k) {
+                Some(e) => {
+                    e.4 += v.4;
+                    if (v.0.len(), &v.0, v.1) < (e.0.len(), &e.0, e.1) {
+                        let c = e.4;
+                        *e = v;
+                        e.4 = c;
+                    }
+                },
+                None => {
+                    self.found.insert(k, v);
+                },
+            }
+        }
+        for s in o.samples {
+            if self.samples.len() < 3 {
+                self.samples.push(s);
+            }
+        }
+    }
+    fn to_json(&self) -> Value {
+        json!({
+            "programs": self.programs, "runs": self.runs, "skipped": self.skipped,
+            "outputs": self.outputs.iter().collect::<Vec<_>>(),
+            "nontrivial": self.nontrivial.iter().collect::<Vec<_>>(),
+            "found": self.found.iter().map(|(k, v)| json!({"sig": k, "prog": v.0, "input": v.1, "clause": v.2, "detail": v.3, "count": v.4})).collect::<Vec<_>>(),
+            "samples": self.samples,
+        })
+    }
+    fn from_json(v: &Value) -> C06Acc {
+        let mut a = C06Acc {
+            programs: v["programs"].as_u64().unwrap_or(0),
+            runs: v["runs"].as_u64().unwrap_or(0),
+            skipped: v["skipped"].as_u64().unwrap_or(0),
+            ..Default::default()
+        };
+        a.outputs = v["outputs"].as_array().map(|x| x.iter().filter_map(|y| y.as_u64()).collect()).unwrap_or_default();
+        a.nontrivial = v["nontrivial"].as_array().map(|x| x.iter().filter_map(|y| y.as_u64()).collect()).unwrap_or_default();
+        if let Some(f) = v["found"].as_array() {
+            for e in f {
+                a.found.insert(
+                    e["sig"].as_str().unwrap_or("").to_string(),
+                    (
+                        e["prog"].as_array().map(|p| p.iter().map(|x| x.as_u64().unwrap_or(0) as usize).collect()).unwrap_or_default(),
+                        e["input"].as_u64().unwrap_or(0) as usize,
+                        e["clause"].as_str().unwrap_or("").to_string(),
+                        e["detail"].as_str().unwrap_or("").to_string(),
+                        e["count"].as_u64().unwrap_or(0),
+                    ),
+                );
+            }
+        }
+        a.samples = v["samples"].as_array().map(|x| x.iter().map(|y| y.as_str().unwrap_or("").to_string()).collect()).unwrap_or_default();
+        a
+    }
+}
+
+fn c06_eval(alpha: &[pipelines::Stage], inputs: &[pipelines::Input], prog: &Vec<usize>, acc: &mut C06Acc) {
+    use std::hash::{Hash, Hasher};
+    let stages: Vec<pipelines::Stage> = prog.iter().map(|i| alpha[*i].clone()).collect();
+    acc.programs += 1;
+    for (ii, input) in inputs.iter().enumerate() {
+        match pipelines::run_ref(&stages, input) {
+            None => {
+                acc.skipped += 1;
+                continue;
+            },
+            Some((want, _)) => {
+                let mut h2 = std::collections::hash_map::DefaultHasher::new();
+                want.hash(&mut h2);
+                stages.iter().map(stage_family).collect::<Vec<_>>().hash(&mut h2);
+                let oh = h2.finish();
+                acc.outputs.insert(oh);
+                if !want.is_empty() {
+                    acc.nontrivial.insert(oh);
+                }
+            },
+        }
+        acc.runs += 1;
+        if let Some((clause, detail)) = pipelines::check_one(&stages, input) {
+            let mut fams: Vec<&str> = stages.iter().map(stage_family).collect();
+            fams.sort();
+            fams.dedup();
+            let sig = format!("pipeline/{}/{}", clause, fams.join("+"));
+            let e = acc.found.entry(sig).or_insert((prog.clone(), ii, clause.clone(), detail.clone(), 0));
+            e.4 += 1;
+            if (prog.len(), &*prog, ii) < (e.0.len(), &e.0, e.1) {
+                e.0 = prog.clone();
+                e.1 = ii;
+                e.3 = detail;
+            }
+        } else if acc.samples.len() < 3 && prog.len() == 3 && ii == 20 && prog[0] != prog[1] {
+            acc.samples.push(format!("from_iter({:?}) | {:?} | for_each(f)", input, stages));
+        }
+    }
+}
+
+/// the work items of C06: programs of length < 2 individually, then one item per 2-stage prefix
+/// (standing for every program that extends it up to the depth bound)
+fn c06_items(na: usize, depth: usize) -> Vec<Vec<usize>> {
+    let mut items: Vec<Vec<usize>> = vec![vec![]];
+    if depth >= 1 {
+        for a in 0..na {
+            items.push(vec![a]);
+        }
+    }
+    if depth >= 2 {
+        for a in 0..na {
+            for b in 0..na {
+                items.push(vec![a, b]);
+            }
+        }
+    }
+    items
+}
+
+fn run_c06_worker(args: &Args, from: usize, to: usize) -> i32 {
+    let thorough = args.tier == Tier::Thorough;
+    let alpha = pipelines::alphabet(thorough);
+    let inputs = pipelines::inputs();
+    let depth = c06_depth(args.tier);
+    let na = alpha.len();
+    let items = c06_items(na, depth);
+    let mut acc = C06Acc::default();
+    fn rec(prog: &mut Vec<usize>, depth: usize, na: usize, f: &mut dyn FnMut(&Vec<usize>)) {
+        f(prog);
+        if prog.len() < depth {
+            for a in 0..na {
+                prog.push(a);
+                rec(prog, depth, na, f);
+                prog.pop();
+            }
+        }
+    }
+    for k in from..to.min(items.len()) {
+        let mut p = items[k].clone();
+        if p.len() < 2 {
+            c06_eval(&alpha, &inputs, &p, &mut acc);
+        } else {
+            rec(&mut p, depth, na, &mut |q| c06_eval(&alpha, &inputs, q, &mut acc));
+        }
+    }
+    println!("{}", acc.to_json());
+    0
+}
+
+fn run_c06(args: &Args) -> i32 {
+    use std::sync::atomic::{AtomicUsize, Ordering};
+    use std::sync::Mutex;
+    let t0 = Instant::now();
+    let id = "C06";
+    let known = load_known(&args.verif_dir);
+    let thorough = args.tier == Tier::Thorough;
+    let alpha = pipelines::alphabet(thorough);
+    let inputs = pipelines::inputs();
+    let depth = c06_depth(args.tier);
+    let na = alpha.len();
+    let items = c06_items(na, depth);
+    // chunking: keep each worker process below ~250k runs (the crate's own Arc cycles leak every
+    // subscription graph, a few kB per run)
+    let mut per_item: u64 = 1;
+    for _ in 2..depth {
+        per_item = per_item * na as u64 + 1;
+    }
+    let runs_per_item = per_item * inputs.len() as u64;
+    let chunk = ((250_000 / runs_per_item.max(1)) as usize).clamp(1, 200);
+    let nchunks = (items.len() + chunk - 1) / chunk;
+    let next = AtomicUsize::new(0);
+    let total = Mutex::new(C06Acc::default());
+    let fault: Mutex<Option<String>> = Mutex::new(None);
+    let deadline = t0 + Duration::from_secs(args.cap_s);
+    let capped = std::sync::atomic::AtomicBool::new(false);
+    std::thread::scope(|sc| {
+        for _ in 0..args.threads {
+            sc.spawn(|| loop {
+                let c = next.fetch_add(1, Ordering::Relaxed);
+                if c >= nchunks {
+                    break;
+                }
+                if Instant::now() > deadline {
+                    capped.store(true, Ordering::Relaxed);
+                    break;
+                }
+                let exe = std::env::current_exe().unwrap();
+                let out = std::process::Command::new(exe)
+                    .args(["c06worker", "C06", "--tier", tier_name(args.tier), "--from", &(c * chunk).to_string(), "--to", &((c + 1) * chunk).to_string()])
+                    .output();
+                match out {
+                    Ok(o) if o.status.success() => match serde_json::from_slice::<Value>(&o.stdout) {
+                        Ok(v) => total.lock().unwrap().merge(C06Acc::from_json(&v)),
+                        Err(e) => *fault.lock().unwrap() = Some(format!("bad C06 worker output: {e}")),
+                    },
+                    Ok(o) => *fault.lock().unwrap() = Some(format!("C06 worker failed: {:?}", o.status)),
+                    Err(e) => *fault.lock().unwrap() = Some(format!("cannot spawn C06 worker: {e}")),
+                }
+            });
+        }
+    });
+    let mut acc = total.into_inner().unwrap();
+    let mut new_viol = vec![];
+    let mut known_hits: BTreeMap<String, (String, u64)> = BTreeMap::new();
+    if let Some((clause, detail)) = pipelines::check_pipe_macro() {
+        acc.found.insert(format!("pipeline/{clause}"), (vec![], 0, clause, detail, 1));
+    }
+    let dir = args.verif_dir.join("replays");
+    let _ = std::fs::create_dir_all(&dir);
+    for (sig, (prog, ii, clause, detail, count)) in &acc.found {
+        if let Some(k) = known.iter().find(|k| k.status == "known" && k.property == id && &k.signature == sig) {
+            known_hits.insert(sig.clone(), (k.what.clone(), *count));
+            continue;
+        }
+        let stages: Vec<pipelines::Stage> = prog.iter().map(|i| alpha[*i].clone()).collect();
+        // replay twice
+        if clause != "pipe-macro" {
+            let a = pipelines::check_one(&stages, &inputs[*ii]);
+            let b = pipelines::check_one(&stages, &inputs[*ii]);
+            if a != b || a.is_none() {
+                eprintln!("MACHINERY FAULT: C06 violation did not reproduce deterministically");
+                return 2;
+            }
+        }
+        use std::hash::{Hash, Hasher};
+        let mut h = std::collections::hash_map::DefaultHasher::new();
+        (sig, prog, ii).hash(&mut h);
+        let path = dir.join(format!("C06-{:016x}.json", h.finish()));
+        let v = json!({
+            "property": id, "tier": tier_name(args.tier), "clause": clause, "signature": sig, "detail": detail,
+            "program": prog, "program_text": format!("from_iter({:?}) | {:?} | for_each(f)", inputs[*ii], stages),
+            "input": ii, "executions_with_this_signature": count,
+        });
+        std::fs::write(&path, serde_json::to_string_pretty(&v).unwrap()).expect("write replay");
+        new_viol.push((path, format!("from_iter({:?}) | {:?} | for_each(f): [{}] {}", inputs[*ii], stages, sig, detail)));
+    }
+    let wall = t0.elapsed().as_secs_f64();
+    let capped = capped.load(Ordering::Relaxed);
+    let fault = fault.into_inner().unwrap();
+    if acc.samples.is_empty() {
+        acc.samples.push(format!("from_iter({:?}) | {:?} | for_each(f)", inputs[20], &alpha[..depth.min(alpha.len())]));
+    }
+    let ev = json!({
+        "property_id": id, "tier": tier_name(args.tier), "seed": seed(), "level": "model_checking",
+        "coverage": {
+            "states": acc.runs, "transitions": acc.runs,
+            "traces_validated_against_impl": acc.runs,
+            "evaluations": acc.runs,
+            "programs": acc.programs,
+            "inputs_per_program": inputs.len(),
+            "skipped_infinite_demand": acc.skipped,
+            "distinct_nontrivial": acc.nontrivial.len(),
+            "distinct_outcomes": acc.outputs.len(),
+            "rule": format!("all pipelines from_iter(xs) | s1..sd | for_each(f), d <= {depth}, stages from an alphabet of {na} (map x2, filter x4, scan, take 1-3, skip 1-3, concat!(.,P)/concat!(P,.) with sub-pipelines P, map-then-flatten x3 with optional inner stage), xs = all lists over {{1,2,3}} of length 0..3 and the unbounded counter (where the reference demand is finite); each run is the real crate code compared with a demand-driven reference interpreter (values seen by f, exactly one completion inside the subscribing call, next() calls per iterator); an outcome = (stage families, expected output list); plus pipe! for arities 2..6 against manual application"),
+            "samples": acc.samples,
+            "exhaustive": !capped && fault.is_none(),
+        },
+        "assumptions": ["stage alphabet and parameters as listed; closures are harness-chosen; depth bound d", "states/transitions count (program,input) runs: the space is a set of deterministic runs, not a branching tree"],
+        "wall_s": (wall * 100.0).round() / 100.0,
+        "violations": new_viol.len(),
+    });
+    let evdir = args.verif_dir.join("evidence");
+    let _ = std::fs::create_dir_all(&evdir);
+    std::fs::write(evdir.join("C06.json"), serde_json::to_string_pretty(&ev).unwrap()).expect("write evidence");
+    for (sig, (what, n)) in &known_hits {
+        println!("KNOWN-FINDING: property={id} {what} [signature {sig}; {n} runs]");
+    }
+    for (p, d) in &new_viol {
+        println!("VIOLATION property={id} replay={}", p.display());
+        println!("  {d}");
+    }
+    println!("C06 {}: {} programs, {} runs ({} skipped: infinite demand), {} distinct outcomes, {} new violation signature(s), {:.1}s", tier_name(args.tier), acc.programs, acc.runs, acc.skipped, acc.outputs.len(), new_viol.len(), wall);
+    if let Some(f) = fault {
+        eprintln!("MACHINERY FAULT: {f}");
+        return 2;
+    }
+    if capped {
+        eprintln!("MACHINERY FAULT: wall-clock cap hit");
+        return 2;
+    }
+    if !new_viol.is_empty() {
+        return 1;
+    }
+    0
+}
+
+fn replay_c06(args: &Args, v: &Value) -> i32 {
+    let tier = if v["tier"].as_str() == Some("thorough") { Tier::Thorough } else { Tier::Quick };
+    let alpha = pipelines::alphabet(tier == Tier::Thorough);
+    let inputs = pipelines::inputs();
+    let prog: Vec<usize> = v["program"].as_array().unwrap().iter().map(|x| x.as_u64().unwrap() as usize).collect();
+    let ii = v["input"].as_u64().unwrap() as usize;
+    let stages: Vec<pipelines::Stage> = prog.iter().map(|i| alpha[*i].clone()).collect();
+    println!("from_iter({:?}) | {:?} | for_each(f)", inputs[ii], stages);
+    println!("reference: {:?}", pipelines::run_ref(&stages, &inputs[ii]));
+    println!("real:      {:?}", pipelines::run_real(&stages, &inputs[ii]));
+    let r = if v["clause"].as_str() == Some("pipe-macro") { pipelines::check_pipe_macro() } else { pipelines::check_one(&stages, &inputs[ii]) };
+    match r {
+        Some((c, d)) => {
+            println!("VIOLATION property=C06 replay={}", args.replay.as_ref().unwrap().display());
+            println!("  clause {c}: {d}");
+            1
+        },
+        None => {
+            println!("no violation on this program/input");
+            0
+        },
+    }
 }
